@@ -1404,14 +1404,51 @@ func c03R7(p *core.Program, r *core.Report) {
 		if !takesURN {
 			continue
 		}
-		core.EachInstr(fn, false, func(_ *ssa.Function, in ssa.Instruction) {
-			bo, ok := in.(*ssa.BinOp)
-			if !ok || (bo.Op != token.EQL && bo.Op != token.NEQ) || !isURN(bo.X.Type()) {
-				return
+		// the method itself and the helpers of the package it hands a URN to (a parameter of such a helper is
+		// classified by what the method passes for it)
+		type scope struct {
+			fn   *ssa.Function
+			bind map[*ssa.Parameter]ssa.Value
+		}
+		scopes := []scope{{fn, nil}}
+		for _, cs := range core.Calls(fn, false) {
+			g := cs.Common().StaticCallee()
+			if g == nil || g.Blocks == nil || g == fn || core.FuncPkgPath(g) != core.FuncPkgPath(fn) || g.Signature.Recv() != nil {
+				continue
 			}
-			k := class(bo.X) + "/" + class(bo.Y)
-			cmps = append(cmps, cmp{fn, bo, k})
-		})
+			bind := map[*ssa.Parameter]ssa.Value{}
+			hasURN := false
+			for i, a := range cs.Common().Args {
+				if i < len(g.Params) {
+					bind[g.Params[i]] = a
+					if isURN(a.Type()) {
+						hasURN = true
+					}
+				}
+			}
+			if hasURN {
+				scopes = append(scopes, scope{g, bind})
+			}
+		}
+		for _, sc := range scopes {
+			sc := sc
+			core.EachInstr(sc.fn, false, func(_ *ssa.Function, in ssa.Instruction) {
+				bo, ok := in.(*ssa.BinOp)
+				if !ok || (bo.Op != token.EQL && bo.Op != token.NEQ) || !isURN(bo.X.Type()) {
+					return
+				}
+				actual := func(v ssa.Value) ssa.Value {
+					if prm, ok := v.(*ssa.Parameter); ok {
+						if a, ok := sc.bind[prm]; ok {
+							return a
+						}
+					}
+					return v
+				}
+				k := class(actual(bo.X)) + "/" + class(actual(bo.Y))
+				cmps = append(cmps, cmp{fn, bo, k})
+			})
+		}
 	}
 	count := map[string]int{}
 	for _, c := range cmps {
@@ -1523,8 +1560,31 @@ func c03R8(p *core.Program, r *core.Report, applies []*ssa.Function) {
 			result := core.Unk
 			mixed := false
 			isParam := func(x ssa.Value) bool { return x == ssa.Value(g.Params[0]) || x == ssa.Value(g.Params[1]) }
+			var nilCmp func(cond ssa.Value) core.AB
+			nilCmp = func(cond ssa.Value) core.AB {
+				if un, ok := cond.(*ssa.UnOp); ok && un.Op == token.NOT {
+					switch nilCmp(un.X) {
+					case core.True:
+						return core.False
+					case core.False:
+						return core.True
+					}
+					return core.Unk
+				}
+				bo, ok := cond.(*ssa.BinOp)
+				if !ok || (bo.Op != token.EQL && bo.Op != token.NEQ) {
+					return core.Unk
+				}
+				if (core.IsNilConst(bo.Y) && isParam(bo.X)) || (core.IsNilConst(bo.X) && isParam(bo.Y)) || (isParam(bo.X) && isParam(bo.Y)) {
+					return boolAB(bo.Op == token.EQL)
+				}
+				return core.Unk
+			}
 			core.ExplorePaths(g, core.PathRules{
 				OnBranch: func(s *core.PathState, cond ssa.Value) core.AB {
+					if d := nilCmp(cond); d != core.Unk {
+						return d
+					}
 					bo, ok := cond.(*ssa.BinOp)
 					if !ok {
 						return core.Unk
@@ -1552,13 +1612,21 @@ func c03R8(p *core.Program, r *core.Report, applies []*ssa.Function) {
 					v := s.Val(ret.Results[0])
 					if v == core.Unk {
 						rv := ret.Results[0]
-						if phi, ok := rv.(*ssa.Phi); ok {
-							if in := pathIncoming(s, phi); in != nil {
-								rv = in
+						for k := 0; k < 4; k++ {
+							phi, ok := rv.(*ssa.Phi)
+							if !ok {
+								break
 							}
+							in := pathIncoming(s, phi)
+							if in == nil {
+								break
+							}
+							rv = in
 						}
 						if c, ok := rv.(*ssa.Const); ok && c.Value != nil {
 							v = boolAB(c.Value.String() == "true")
+						} else {
+							v = nilCmp(rv) // the result is itself a nil comparison of the parameters
 						}
 					}
 					if v == core.Unk || (result != core.Unk && result != v) {
